@@ -874,11 +874,21 @@ func emitRTRow(cw *caseWriter, via string, src interface{}, how int) {
 	}
 	var res interface{}
 	var err error
+	mkValue := func(x interface{}) jsonline.Value {
+		// the constructor named after the format, or the general one, in turn
+		if (how/4)%2 == 0 {
+			return jsonline.NewValue(x, f, nil)
+		}
+		if f == jsonline.Numeric {
+			return jsonline.NewValueNumeric(x)
+		}
+		return jsonline.NewValueString(x)
+	}
 	pan := guard(func() {
 		switch how % 4 {
 		case 0:
 			var b []byte
-			b, err = jsonline.NewValue(src, f, nil).MarshalJSON()
+			b, err = mkValue(src).MarshalJSON()
 			if err != nil {
 				return
 			}
@@ -895,10 +905,10 @@ func emitRTRow(cw *caseWriter, via string, src interface{}, how int) {
 				}
 			}
 		case 1:
-			res, err = jsonline.NewValue(src, f, nil).Export()
+			res, err = mkValue(src).Export()
 		default:
 			row := jsonline.NewRow()
-			row.SetValue("c", jsonline.NewValue(nil, f, nil))
+			row.SetValue("c", mkValue(nil))
 			row.Set("c", []interface{}{float32(1.5), int64(7), "x", uint8(3), 2.5, true}[(how/4)%6])
 			row.Set("c", src)
 			cell, _ := row.GetValue("c")
